@@ -753,16 +753,55 @@ fn blocks_message(blocks: impl IntoIterator<Item = (Cid, Vec<u8>)>) -> Option<(B
     (count > 0).then(|| (message.encode_to_vec().into(), count))
 }
 
+/// Size of an encoded Bitswap message carrying no blocks: [`blocks_message`] always sets an
+/// empty wantlist (tag + zero length).
+const EMPTY_MESSAGE_SIZE: usize = 2;
+
+/// Size a block adds to the encoded message built by [`blocks_message`]: one `payload` entry
+/// holding the CID prefix and the data.
+fn encoded_block_size(cid: &Cid, data_len: usize) -> usize {
+    // A protobuf `bytes` field: tag, length, content. Empty fields are not encoded.
+    let field_size = |len: usize| match len {
+        0 => 0,
+        len => 1 + prost::encoding::encoded_len_varint(len as u64) + len,
+    };
+    let prefix_len = Prefix {
+        version: cid.version(),
+        codec: cid.codec(),
+        multihash_type: cid.hash().code(),
+        multihash_len: cid.hash().size(),
+    }
+    .to_bytes()
+    .len();
+    let block_size = field_size(prefix_len) + field_size(data_len);
+
+    1 + prost::encoding::encoded_len_varint(block_size as u64) + block_size
+}
+
 /// Extract a batch of blocks of no more than `max_size` from `blocks`.
 /// Returns `None` if no more blocks are left.
 fn extract_next_batch<'a>(
     blocks: &'a mut VecDeque<(Cid, Vec<u8>)>,
     max_batch_size: usize,
 ) -> Option<Drain<'a, (Cid, Vec<u8>)>> {
+    extract_next_batch_limited(blocks, max_batch_size, config::MAX_MESSAGE_SIZE)
+}
+
+/// Extract a batch of blocks from `blocks` such that the block data combined is no more than
+/// `max_batch_size` and the message encoding the batch is no more than `max_message_size`
+/// (many small blocks can exceed the latter long before they reach the former).
+/// Returns `None` if no more blocks are left.
+fn extract_next_batch_limited<'a>(
+    blocks: &'a mut VecDeque<(Cid, Vec<u8>)>,
+    max_batch_size: usize,
+    max_message_size: usize,
+) -> Option<Drain<'a, (Cid, Vec<u8>)>> {
     // Get rid of oversized blocks to not stall the processing by not being able to queue them.
     loop {
         let block = blocks.front()?;
-        if block.1.len() > max_batch_size {
+        if block.1.len() > max_batch_size
+            || EMPTY_MESSAGE_SIZE + encoded_block_size(&block.0, block.1.len()) > max_message_size
+        {
             tracing::warn!(
                 target: LOG_TARGET,
                 cid = block.0.to_string(),
@@ -779,14 +818,19 @@ fn extract_next_batch<'a>(
     // Determine how many blocks we can batch. Note that we can always batch at least one
     // block due to check above.
     let mut total_size = 0;
+    let mut message_size = EMPTY_MESSAGE_SIZE;
     let mut block_count = 0;
 
     for b in blocks.iter() {
         let next_block_size = b.1.len();
-        if total_size + next_block_size > max_batch_size {
+        let next_encoded_size = encoded_block_size(&b.0, next_block_size);
+        if total_size + next_block_size > max_batch_size
+            || message_size + next_encoded_size > max_message_size
+        {
             break;
         }
         total_size += next_block_size;
+        message_size += next_encoded_size;
         block_count += 1;
     }
 
@@ -1084,5 +1128,29 @@ mod tests {
         assert_eq!(batch.collect::<Vec<_>>(), chunk2);
 
         assert!(extract_next_batch(&mut blocks_deque, max_size).is_none());
+    }
+
+    #[test]
+    fn extract_next_batch_respects_message_size() {
+        // Many tiny blocks: the data stays far below the batch limit, the encoding does not.
+        let max_batch_size = 1000;
+        let max_message_size = 256;
+
+        let block = vec![0x01; 1];
+        let blocks = (0..100).map(|_| (cid(&block), block.clone())).collect::<Vec<_>>();
+        let mut blocks_deque = blocks.iter().cloned().collect::<VecDeque<_>>();
+
+        let mut sent = Vec::new();
+        while let Some(batch) =
+            extract_next_batch_limited(&mut blocks_deque, max_batch_size, max_message_size)
+        {
+            let batch = batch.collect::<Vec<_>>();
+            let (message, count) = blocks_message(batch.clone()).unwrap();
+            assert_eq!(count, batch.len());
+            assert!(message.len() <= max_message_size);
+            sent.extend(batch);
+        }
+
+        assert_eq!(sent, blocks);
     }
 }
